@@ -214,7 +214,7 @@ pub fn run_schedule(progs: &[Prog], ch: &mut dyn Chooser) -> SchedResult {
     loop {
         let mut s = c.st.lock().unwrap();
         // wait for quiescence: nobody running, everybody parked or finished
-        let deadline = std::time::Instant::now() + Duration::from_secs(20);
+        let deadline = std::time::Instant::now() + Duration::from_secs(45);
         loop {
             let quiet = s.running.is_none() && s.turn.is_none() && (0..n).all(|i| s.parked[i] || s.finished[i]);
             if quiet {
@@ -223,7 +223,17 @@ pub fn run_schedule(progs: &[Prog], ch: &mut dyn Chooser) -> SchedResult {
             let (g, to) = c.cv.wait_timeout(s, Duration::from_millis(200)).unwrap();
             s = g;
             if to.timed_out() && std::time::Instant::now() > deadline {
-                inconclusive = Some(format!("watchdog: threads not quiescent after 20 s (parked {:?} finished {:?} running {:?})", s.parked, s.finished, s.running));
+                // Exactly one thread has been released and every other one is parked at a yield point (outside any lock of
+                // the code under test) or has finished: if that one thread neither reaches its next yield point nor
+                // finishes within the deadline, it is blocked on something only it could release, or it spins - the
+                // operation hangs. Any other picture at the deadline says nothing about the code (inconclusive).
+                let others_quiet = (0..n).all(|i| Some(i) == s.running || Some(i) == s.turn || s.parked[i] || s.finished[i]);
+                let what = format!("after 45 s: parked {:?} finished {:?} running {:?} turn {:?}", s.parked, s.finished, s.running, s.turn);
+                if others_quiet && (s.running.is_some() || s.turn.is_some()) {
+                    s.errors.push(format!("deadlock: the one released thread made no progress while all others were parked ({})", what));
+                    HUNG.store(true, std::sync::atomic::Ordering::SeqCst);
+                }
+                inconclusive = Some(format!("watchdog: threads not quiescent {}", what));
                 break;
             }
         }
@@ -369,6 +379,10 @@ fn classify(e: &str) -> &'static str {
     }
 }
 
+/// Set when a schedule ended with a thread of the code under test hung: the process cannot run further schedules (the
+/// hung thread may hold the intern table's lock), it reports what it has and ends.
+static HUNG: std::sync::atomic::AtomicBool = std::sync::atomic::AtomicBool::new(false);
+
 /// Enumerate every schedule of one program set.
 fn explore(progs: &[Prog], rep: &mut Report, max_schedules: u64) -> (u64, u64) {
     let mut ch = EnumCh { stack: vec![], pos: 0 };
@@ -381,7 +395,20 @@ fn explore(progs: &[Prog], rep: &mut Report, max_schedules: u64) -> (u64, u64) {
         n += 1;
         rep.evaluations += 1;
         if let Some(why) = r.inconclusive {
-            rep.notes.push(format!("INCONCLUSIVE {}", why));
+            if HUNG.load(std::sync::atomic::Ordering::SeqCst) {
+                let choices: Vec<usize> = ch.stack.iter().map(|(_, i)| *i).collect();
+                for e in &r.errors {
+                    rep.violation(
+                        &format!("C18:{}", classify(e)),
+                        &format!("program [{}]: {}", label, e),
+                        json!({"cmd": "sstr", "mode": "replay", "programs": label, "choices": format!("{:?}", choices)}),
+                        json!({"trace": r.trace}),
+                    );
+                }
+                bad += 1;
+            } else {
+                rep.notes.push(format!("INCONCLUSIVE {}", why));
+            }
             break;
         }
         if r.decisions >= 2 {
@@ -603,9 +630,50 @@ fn rendezvous_drops(rep: &mut Report, pairs: usize, rounds: usize, seed: u64) {
     }
 }
 
+fn heartbeat_only(_: &'static str) {
+    HEARTBEAT.fetch_add(1, std::sync::atomic::Ordering::Relaxed);
+}
+
+static HEARTBEAT: std::sync::atomic::AtomicU64 = std::sync::atomic::AtomicU64::new(0);
+static INJECT: std::sync::atomic::AtomicBool = std::sync::atomic::AtomicBool::new(false);
+static STRESS_DONE: std::sync::atomic::AtomicBool = std::sync::atomic::AtomicBool::new(false);
+
+/// The uncontrolled phases have no scheduler that could notice a deadlock. A side thread watches the heartbeat that every
+/// SharedString operation gives at its hook: 16 threads that do nothing but create and drop strings and have not passed a
+/// single hook for two minutes are blocked (or spinning) inside the code under test. It writes the report itself and ends
+/// the process, because the main thread is waiting for the stuck workers.
+fn start_no_progress_watchdog(out: String) {
+    std::thread::spawn(move || {
+        let mut last = HEARTBEAT.load(std::sync::atomic::Ordering::Relaxed);
+        let mut since = std::time::Instant::now();
+        loop {
+            std::thread::sleep(Duration::from_secs(2));
+            if STRESS_DONE.load(std::sync::atomic::Ordering::SeqCst) {
+                return;
+            }
+            let now = HEARTBEAT.load(std::sync::atomic::Ordering::Relaxed);
+            if now != last {
+                last = now;
+                since = std::time::Instant::now();
+            } else if since.elapsed() > Duration::from_secs(120) && now > 0 {
+                let what = format!("stress: no SharedString operation passed a hook for 120 s after {} operations: the worker threads are blocked inside new / clone / drop", now);
+                let j = json!({"prop": "C18", "evaluations": 1, "digests": [], "coverage": {"stress.operations_before_the_hang": now}, "samples": [],
+                    "violations": [{"sig": "C18:stress:deadlock", "what": what, "replay": {"cmd": "sstr", "mode": "stress"}, "detail": J::Null, "count": 1}], "notes": [], "extra": {}});
+                let _ = std::fs::write(&out, serde_json::to_vec(&j).unwrap());
+                std::process::exit(0);
+            }
+        }
+    });
+}
+
 fn stress(rep: &mut Report, threads: usize, ops: usize, contents: usize, seed: u64, inject: bool) {
     // uncontrolled run: real scheduler, random yields injected at the hooks
     fn jitter(_: &'static str) {
+        // every operation of the code under test passes a hook: the heartbeat of the no-progress watchdog
+        HEARTBEAT.fetch_add(1, std::sync::atomic::Ordering::Relaxed);
+        if !INJECT.load(std::sync::atomic::Ordering::Relaxed) {
+            return;
+        }
         thread_local! { static X: Cell<u64> = Cell::new(0x9E3779B97F4A7C15); }
         let v = X.with(|x| {
             let mut v = x.get();
@@ -622,9 +690,8 @@ fn stress(rep: &mut Report, threads: usize, ops: usize, contents: usize, seed: u
         }
     }
     let base_len = verif_hooks::cache_len();
-    if inject {
-        verif_hooks::set_yield(Some(jitter));
-    }
+    INJECT.store(inject, std::sync::atomic::Ordering::Relaxed);
+    verif_hooks::set_yield(Some(jitter));
     let tag = RUN_TAG.fetch_add(1, std::sync::atomic::Ordering::SeqCst) + ((std::process::id() as u64) << 32);
     let rounds = 40usize;
     let per_round = ops / threads / rounds;
@@ -812,7 +879,7 @@ fn stress(rep: &mut Report, threads: usize, ops: usize, contents: usize, seed: u
             errors.lock().unwrap().push("panic: a stress thread panicked".into());
         }
     }
-    verif_hooks::set_yield(None);
+    verif_hooks::set_yield(Some(heartbeat_only)); // (the later phases keep the watchdog's heartbeat)
     let end_len = verif_hooks::cache_len();
     let mut errs = errors.lock().unwrap().clone();
     if end_len != base_len {
@@ -863,6 +930,7 @@ pub fn main(a: &Args) {
         }
         "stress" => {
             let seed = a.u64("seed", 1);
+            start_no_progress_watchdog(out.clone());
             stress(&mut rep, a.usize("threads", 16), a.usize("ops", 1_000_000), a.usize("contents", 3), seed + shard, true);
             stress(&mut rep, a.usize("threads", 16), a.usize("ops", 1_000_000), 2, seed + shard + 1000, false);
             // churn: many contents, almost nothing held, so the "not yet interned / just released" paths of new() race
@@ -872,6 +940,7 @@ pub fn main(a: &Args) {
             rep.nontrivial(1);
             rep.nontrivial(2);
             rep.sample(json!({"stress": {"threads": a.usize("threads", 16), "ops": a.usize("ops", 1_000_000)}}));
+            STRESS_DONE.store(true, std::sync::atomic::Ordering::SeqCst);
         }
         _ => {
             // scope: `threads` threads, each a closed program of <= len operations over `contents` contents
@@ -906,6 +975,10 @@ pub fn main(a: &Args) {
                     continue;
                 }
                 mine += 1;
+                if HUNG.load(std::sync::atomic::Ordering::SeqCst) {
+                    rep.count("program_sets.skipped_after_hang");
+                    continue;
+                }
                 let (n, bad) = explore(set, &mut rep, maxs);
                 schedules += n;
                 rep.add("schedules.executed", n);
